@@ -389,6 +389,33 @@ func gen(ctx context.Context, r *common.Rng, k, total int, tier string) tcase {
 	if c.route == "direct" {
 		genFaults(r, &c, len(sizes))
 	}
+	// faults of the front end: a cancelled request, a broken upload (drawn last: the rest of the case is as without them)
+	if c.route == "direct" && (c.format == "unixfs" || c.format == "def") && mal > 3 && r.Chance(1, 6) {
+		kind := r.Intn(3)
+		if kind == 2 && strings.HasPrefix(c.ip.chunker, "rabin") {
+			// a part body that ends early makes the rabin splitter (whyrusleeping/chunker) spin for ever: see notes, Round 8b
+			kind = 1
+		}
+		switch kind {
+		case 0:
+			// cancel when the k-th top-level entry is asked for (k = number of entries: after the last one, before Finalize)
+			c.src = "mem"
+			c.inj = fmt.Sprintf("ce%d", r.Intn(len(top.names)+1))
+		case 1:
+			// cancel when the k-th block reaches the DAG service
+			if len(sizes) > 0 {
+				c.inj = fmt.Sprintf("cb%d", r.Intn(len(sizes)))
+			}
+		default:
+			// the multipart body ends early
+			pm := []int{0, 500, 900, 990, 1000}[r.Intn(5)]
+			if r.Bool() {
+				pm = r.Intn(1000)
+			}
+			c.src = "mp"
+			c.inj = fmt.Sprintf("tr%d", pm)
+		}
+	}
 	return c
 }
 
